@@ -77,7 +77,7 @@ def plan(tier, seed):
             shards.append({"kind": "rand", "n": 5000, "env": {"PYTHONHASHSEED": i % 3}, "label": "rand%d" % i})
     else:
         parts5 = 32
-        for sch, unk, wm, hs in cfgs[:5]:
+        for sch, unk, wm, hs in cfgs[:4]:
             for p in range(parts5):
                 shards.append({"kind": "exh", "nmin": 5, "nmax": 5, "scheme": sch, "unk": unk, "weights": wm, "part": p,
                                "parts": parts5, "locks": "sample", "distinct_every": 8, "env": {"PYTHONHASHSEED": hs},
@@ -86,7 +86,7 @@ def plan(tier, seed):
             shards.append({"kind": "exh", "nmax": 4, "scheme": sch, "unk": unk, "weights": wm, "part": 0, "parts": 1,
                            "locks": "all", "dups": 4, "env": {"PYTHONHASHSEED": hs}, "label": "exh4-%s-%s" % (sch, unk)})
         for i in range(32):
-            shards.append({"kind": "rand", "n": 150000, "env": {"PYTHONHASHSEED": i % 4}, "label": "rand%d" % i})
+            shards.append({"kind": "rand", "n": 100000, "env": {"PYTHONHASHSEED": i % 4}, "label": "rand%d" % i})
     return shards
 
 
